@@ -669,7 +669,7 @@ func (ex *exec) typeAssert(instr *ssa.TypeAssert, x value) value {
 		if !ex.implements(itf.t, idst) {
 			err = fmt.Sprintf("interface conversion: %v is not %v: missing method", typeString(itf.t), typeString(instr.AssertedType))
 		}
-	} else if types.Identical(itf.t, instr.AssertedType) {
+	} else if identical(itf.t, instr.AssertedType) {
 		v = itf.v // extract value
 	} else {
 		err = fmt.Sprintf("interface conversion: interface {} is %s, not %s", typeString(itf.t), typeString(instr.AssertedType))
